@@ -128,6 +128,8 @@ def draw_text_corruption(tape, text, names):
                 "struct %s { u8 a; };" % nm, "const %s = 1;" % nm, "typedef %s %s;" % (nm, nm),
                 "struct Rec { Rec r; };", "struct RecA { RecB b; }; struct RecB { RecA a; };",
                 "typedef TT1 TT2; typedef TT2 TT1;", "const CA = CB; const CB = CA;",
+                "typedef u32 TA; typedef TA TA; struct STA { TA n; u8 x<@n>; };",
+                "typedef TX TA; typedef TA TX; struct STA { TA n; u8 x<@n>; };", "typedef TA TA; struct STA { TA a; };",
                 "union UU { 1: u8 a; 1: u16 b; };", "union UU { 1: u8 a; 2: u16 a; };",
                 "struct SS { u8 a; u8 a; };", "enum EE { EE_A = 1, EE_A = 2 };", "enum EE { EE_A = 1, EE_B = 1 };",
                 "const KK = 1 / 0;", "const KK = 7 / 2;", "const KK = 1 << 70;", "const KK = 1 >> 70;",
@@ -168,6 +170,9 @@ ISAR_SNIPPETS = [
     '<struct name="RecA"><member name="b" type="RecB"/></struct><struct name="RecB"><member name="a" type="RecA"/></struct>',
     '<typedef name="TT1" type="TT2"/><typedef name="TT2" type="TT1"/>',
     '<typedef name="TT1" type="TT1"/>',
+    '<typedef name="TT1" type="TT1"/><struct name="STT"><member name="a" type="TT1"/></struct>',
+    '<typedef name="TT1" type="TT1"/><union name="UTT"><member name="a" type="TT1" discriminatorValue="1"/></union>',
+    '<struct name="Rec"><member name="r" type="Rec"><dimension size="2"/></member></struct>',
     '<constant name="CA" value="CB"/><constant name="CB" value="CA"/>',
     '<constant name="CA" value="CA"/>',
     '<constant name="KK" value="7/2"/><struct name="SK"><member name="a" type="u8"><dimension size="KK"/></member></struct>',
